@@ -184,28 +184,18 @@ def _filter_excluded(fnode, ev):
     return None
 
 
-def _accepting_facts(P, f, elt, var, depth=0):
-    """fact sets (atoms over `var`) under which the per-element expression `elt` is true; follows one private predicate helper"""
+def _accepting_facts(P, f, elt, var, depth=0, want=True):
+    """fact sets (atoms over `var`) under which the per-element expression `elt` is true (false when want is False); follows one
+    private predicate helper, also under `not`"""
     from ..pairing import alts_of
+    if isinstance(elt, ast.UnaryOp) and isinstance(elt.op, ast.Not):
+        return _accepting_facts(P, f, elt.operand, var, depth, not want)
     if isinstance(elt, ast.Call) and isinstance(elt.func, ast.Attribute) and norm(elt.func.value) == "self" and len(elt.args) == 1 \
             and norm(elt.args[0]) == var and f.cls is not None and depth < 2:
         h = f.cls.methods.get(elt.func.attr) or (P.ir_lookup_method(f.cls.name, elt.func.attr) if f.cls.name in P.ir_classes else None)
         if h is None or len(h.params) != 2:
             return None
-        body = [s_ for s_ in h.node.body if not (isinstance(s_, ast.Expr) and isinstance(s_.value, ast.Constant))]
-        out = []
-        for oc, fa, df in _stmt_paths(body, frozenset(), {h.params[1]: var}, None):
-            if oc is None:
-                return None
-            if isinstance(oc, tuple) and oc[0] == "return" and oc[1] is not None:
-                if isinstance(oc[1], ast.Constant):
-                    if oc[1].value is True:
-                        out.append(fa)
-                    continue
-                for alt in alts_of(oc[1], True):
-                    out.append(fa | frozenset(_expand(a, df) for a in alt))
-            # falling off the end returns None: rejecting
-        return out
+        return _predicate_paths(h.node.body, h.params[1], var, want)
     if isinstance(elt, ast.Call) and isinstance(elt.func, ast.Name) and len(elt.args) == 1 and norm(elt.args[0]) == var and not elt.keywords and depth < 2:
         # a local closure or a module-level predicate
         h = next((n for n in ast.walk(f.node) if isinstance(n, ast.FunctionDef) and n is not f.node and n.name == elt.func.id), None)
@@ -214,24 +204,28 @@ def _accepting_facts(P, f, elt, var, depth=0):
             h = mf.node if mf is not None else None
         if h is None or len(h.args.args) != 1 or h.args.vararg or h.args.kwarg or h.args.kwonlyargs:
             return None
-        return _predicate_paths(h.node.body if hasattr(h, "node") else h.body, h.args.args[0].arg, var)
-    return [frozenset(alt) for alt in alts_of(elt, True)]
+        return _predicate_paths(h.node.body if hasattr(h, "node") else h.body, h.args.args[0].arg, var, want)
+    return [frozenset(alt) for alt in alts_of(elt, want)]
 
 
-def _predicate_paths(stmts, param, var):
-    """fact sets under which a predicate body returns true, its parameter renamed to `var`"""
+def _predicate_paths(stmts, param, var, want=True):
+    """fact sets under which a predicate body returns a true value (a false one when want is False), its parameter renamed to `var`"""
     from ..pairing import alts_of
     body = [s_ for s_ in stmts if not (isinstance(s_, ast.Expr) and isinstance(s_.value, ast.Constant))]
     out = []
     for oc, fa, df in _stmt_paths(body, frozenset(), {param: var}, None):
         if oc is None:
             return None
-        if isinstance(oc, tuple) and oc[0] == "return" and oc[1] is not None:
+        if oc == "fall" or (isinstance(oc, tuple) and oc[0] == "return" and oc[1] is None):
+            if not want:
+                out.append(fa)  # falling off the end returns None
+            continue
+        if isinstance(oc, tuple) and oc[0] == "return":
             if isinstance(oc[1], ast.Constant):
-                if oc[1].value is True:
+                if bool(oc[1].value) is want:
                     out.append(fa)
                 continue
-            for alt in alts_of(oc[1], True):
+            for alt in alts_of(oc[1], want):
                 out.append(fa | frozenset(_expand(a, df) for a in alt))
     return out
 
